@@ -234,6 +234,33 @@ def r2(ck, F):
                 ck.bad("C16.R2", "Write::write writes the buffer once on every path", where(b.raw["sp"]), "the buffer is not written exactly once on every path", fn=b.path)
 
 
+def linear_form(t):
+    """{len: a, arg2: b, const: c} for a term built from Vec::len(..), the max_files parameter, integer constants and
+    (checked) + / -; None for anything else."""
+    if not isinstance(t, tuple):
+        return None
+    if t[0] == "field" and t[2] == "0" and isinstance(t[1], tuple) and t[1][0] == "bin" and t[1][1].endswith("WithOverflow"):
+        t = ("bin", t[1][1][:-len("WithOverflow")], t[1][2], t[1][3])
+    if t[0] == "const" and isinstance(t[2], int):
+        return {"const": t[2]}
+    if t[0] == "arg" and t[1] == 2:
+        return {"arg2": 1}
+    if t[0] == "call" and t[1].endswith("::len"):
+        return {"len": 1}
+    if t[0] == "bin" and t[1] in ("Add", "Sub", "AddUnchecked", "SubUnchecked"):
+        a, b = linear_form(t[2]), linear_form(t[3])
+        if a is None or b is None:
+            return None
+        sgn = 1 if t[1].startswith("Add") else -1
+        out = dict(a)
+        for k, v in b.items():
+            out[k] = out.get(k, 0) + sgn * v
+        return {k: v for k, v in out.items() if v != 0}
+    if t[0] in ("cast", "copy", "move") and len(t) > 1 and isinstance(t[-1], tuple):
+        return linear_form(t[-1])
+    return None
+
+
 def still_latest_guard(F, text):
     """`next_date` still holds what this thread's advance_date stored: (load(..next_date) == <the value advance_date
     computes from the same `now`>), either side first, or compared with a value advance_date handed back."""
@@ -339,6 +366,28 @@ def r4(ck, F):
             ck.ok("C16.R4", "prune_old_logs: sort ascending by creation time, remove from the front", fn=pb.path)
         else:
             ck.bad("C16.R4", "prune_old_logs: sort ascending by creation time, remove from the front", where(pb.raw["sp"]), why, fn=pb.path)
+        # how many: with `k` candidate files and a limit of `max`, the rotation that follows creates one more file, so
+        # k - (max - 1) are removed -- in any spelling of that linear expression -- and nothing when k < max
+        kc = "prune_old_logs: removes len - (max_files - 1) files, none while fewer than max_files exist"
+        forms = set()
+        for pth in PathEval(pb).run():
+            for c in pth.calls:
+                if c[1].get("method") == "take" and len(c[2]) > 1:
+                    lf = linear_form(c[2][1])
+                    forms.add(tuple(sorted(lf.items())) if lf is not None else None)
+        want = {(("arg2", -1), ("const", 1), ("len", 1))}
+        if forms == want:
+            tkb = [bb for bb, t in pb.calls() if t["callee"].get("method") == "take"]
+            g, _ = guards_of(pb, tkb[0])
+            few = [(t, v) for t, v in g if t.startswith("(len(") and (" Lt arg2" in t or " Ge arg2" in t or " Le " in t or " Gt " in t)]
+            okc = any((" Lt arg2" in t and v == 0) or (" Ge arg2" in t and v != 0) for t, v in few)
+            if okc:
+                ck.ok("C16.R4", kc, fn=pb.path)
+            else:
+                ck.bad("C16.R4", kc, where(pb.raw["sp"]), "the removal is not guarded by `files.len() >= max_files` (guards: %s)" % sorted(t[:60] for t, v in g), fn=pb.path)
+        else:
+            ck.bad("C16.R4", kc, where(pb.raw["sp"]), "the number of files removed is %s, not len - max_files + 1: after the rotation creates the next file "
+                   "the directory holds more (or fewer) than max_files log files" % sorted(map(str, forms)), fn=pb.path)
         fc = [c for c in F.closures_of(pb) if any(t["callee"].get("method") == "is_file" for bb, t in c.calls())]
         if fc:
             used = [t["callee"].get("method") for bb, t in fc[0].calls()]
